@@ -87,9 +87,11 @@ IsCond(c) ==
   \/ c \in WideConds
 
 InitS == prog = <<>>
-NextS == Len(prog) < MaxLen /\ \E s \in Alphabet :
+\* (programs that hold a note stop at 5 statements: the thorough bound of 6 is for the structure statements alone)
+NextS == Len(prog) < (IF Count(prog, "note") > 0 THEN 5 ELSE MaxLen) /\ \E s \in Alphabet :
            /\ (s.k = "else" => ~SecondElse(prog))
            /\ (s.k \in {"define", "label", "note"} => Count(prog, s.k) = 0)
+           /\ (s.k = "note" => Len(prog) < 5)
            /\ prog' = Append(prog, s)
 EmitS == prog = <<>> \/ PrintT("CASE " \o ToJson(Number(prog)))
 =============================================================================
